@@ -9,6 +9,8 @@ import (
 	"crypto"
 	"fmt"
 	"net"
+	"os"
+	"path/filepath"
 	"strings"
 	"testing"
 	"time"
@@ -52,6 +54,7 @@ type caseDesc struct {
 	Cfg     deploy.Config `json:"config"`
 	Addrs   []addr        `json:"addrs"`
 	Clock   int           `json:"clock"` // expiry relative to now in seconds
+	NoChain bool          `json:"nochain,omitempty"` // the registered voucher carries no device certificate chain (OVDevCertChain = null)
 	Attack  rvAttack      `json:"attack"`
 	Transit transit       `json:"transit"`
 }
@@ -78,9 +81,9 @@ func (d caseDesc) rvAddrs() []protocol.RvTO2Addr {
 }
 
 type world struct {
-	cfg        deploy.Config
-	owner, rv  *deploy.Service
-	dev, dev2  *deploy.Device
+	cfg       deploy.Config
+	owner, rv *deploy.Service
+	dev, dev2 *deploy.Device
 }
 
 func newWorld(ctx context.Context, d caseDesc) (*world, error) {
@@ -94,6 +97,18 @@ func newWorld(ctx context.Context, d caseDesc) (*world, error) {
 		}
 		if _, err := deploy.TransferVoucher(ctx, d.Cfg, mfg, deploy.KeyMfg, w.owner, deploy.KeyOwner1, dv.Cred.GUID); err != nil {
 			return nil, err
+		}
+		if d.NoChain && i == 0 {
+			// the chain is not covered by the entry hashes, and the rendezvous server has no means to check
+			// the header: a voucher without device certificate names no key any requester could prove
+			ov, err := w.owner.State.RemoveVoucher(ctx, dv.Cred.GUID)
+			if err != nil {
+				return nil, err
+			}
+			ov.CertChain = nil
+			if err := w.owner.State.AddVoucher(ctx, ov); err != nil {
+				return nil, err
+			}
 		}
 		if _, err := deploy.RegisterTO0(ctx, w.owner, deploy.NewLink(w.rv), dv.Cred.GUID, d.rvAddrs(), 3600); err != nil {
 			return nil, fmt.Errorf("TO0: %w", err)
@@ -112,10 +127,10 @@ func helloBody(cfg deploy.Config, key crypto.Signer, guid []byte) []byte {
 }
 
 type tok struct {
-	signer                crypto.Signer
-	pss                   bool
-	nonce, ueid           *refcbor.Node
-	omitNonce, omitUEID   bool
+	signer              crypto.Signer
+	pss                 bool
+	nonce, ueid         *refcbor.Node
+	omitNonce, omitUEID bool
 }
 
 func proveBody(t tok) []byte {
@@ -169,12 +184,15 @@ func evalCase(d caseDesc) ev.Result {
 	if err != nil {
 		return ev.Failf("setup", "%v", err)
 	}
-	tag := fmt.Sprintf("%s/%s addrs=%d clock=%+d attack=%+v transit=%+v", d.Cfg.Key, d.Cfg.Enc, len(d.Addrs), d.Clock, d.Attack, d.Transit)
+	tag := fmt.Sprintf("%s/%s addrs=%d clock=%+d nochain=%v attack=%+v transit=%+v", d.Cfg.Key, d.Cfg.Enc, len(d.Addrs), d.Clock, d.NoChain, d.Attack, d.Transit)
 	guid := w.dev.Cred.GUID
 	w.rv.Mem.SetRVBlobExpiry(guid, time.Now().Add(time.Duration(d.Clock)*time.Second))
 	expired := d.Clock < 0
 	regTo1d, _, _, _ := w.rv.Mem.RVBlobBytes(guid)
 	registered := map[string]crypto.PublicKey{string(guid[:]): w.dev.Key.Public(), string(w.dev2.Cred.GUID[:]): w.dev2.Key.Public()}
+	if d.NoChain {
+		delete(registered, string(guid[:])) // no device certificate: no requester can be "the proven device"
+	}
 	h := w.rv.Handler
 	a := d.Attack
 
@@ -478,6 +496,9 @@ func evalCase(d caseDesc) ev.Result {
 	if a.Kind == "claims" {
 		cls += "/" + a.Claim
 	}
+	if d.NoChain {
+		cls += "/no-device-chain"
+	}
 	if released {
 		cls = "released/" + cls
 	} else {
@@ -532,6 +553,11 @@ func genCase(t *rapid.T) caseDesc {
 	case "claims":
 		d.Attack.Claim = rapid.SampledFrom([]string{"omit-nonce", "omit-ueid", "nonce-stale", "nonce-text", "nonce-int", "ueid-type", "ueid-short", "ueid-first-byte"}).Draw(t, "claim")
 	}
+	// a registered voucher without device certificate chain: whoever asks (the device's own key, a
+	// stranger, ...) cannot be the proven device
+	if (kind == "signer" || (kind == "none" && d.Transit.Kind == "skip")) && rapid.IntRange(0, 2).Draw(t, "nochain") == 0 {
+		d.NoChain = true
+	}
 	return d
 }
 
@@ -562,7 +588,7 @@ func TestC07(t *testing.T) {
 		}
 		return res
 	})
-	r.SetRule("attacks", "configuration × registered blob content (0..4 addresses with IPv4/IPv6/DNS/null combinations, ports, transports) × clock position × either (a) a manual requester: HelloRV/ProveToRV with one structure-aware mutation, a foreign signer (stranger, owner, another registered device, key of another kind), a token replayed from another session, the device's key with a UEID naming another registered GUID, HelloRV for another GUID, omitted / stale / mistyped claims, no HelloRV, unregistered GUID; or (b) the real device function with TO1.RVRedirect altered in transit (mutation, re-signed by stranger/manufacturer/device with the address replaced, envelope damage: signature of 0/1/odd/short length, alg header removed / unregistered / other family, null payload) and the result fed to TO2. Oracle: type 33 only if the reference accepts the token for this session and the registration is unexpired; the released blob equals the bytes registered for the GUID the token names; an altered or foreign-signed blob makes TO2 fail. Non-trivial: any attack, expired position or transit alteration; distinct by descriptor.")
+	r.SetRule("attacks", "configuration × registered blob content (0..4 addresses with IPv4/IPv6/DNS/null combinations, ports, transports) × clock position × either (a) a manual requester: HelloRV/ProveToRV with one structure-aware mutation, a foreign signer (stranger, owner, another registered device, key of another kind), a token replayed from another session, the device's key with a UEID naming another registered GUID, HelloRV for another GUID, omitted / stale / mistyped claims, no HelloRV, unregistered GUID, a registration whose voucher carries no device certificate chain (then nobody is the proven device); or (b) the real device function with TO1.RVRedirect altered in transit (mutation, re-signed by stranger/manufacturer/device with the address replaced, envelope damage: signature of 0/1/odd/short length, alg header removed / unregistered / other family, null payload) and the result fed to TO2. Oracle: type 33 only if the reference accepts the token for this session and the registration is unexpired; the released blob equals the bytes registered for the GUID the token names; an altered or foreign-signed blob makes TO2 fail. Non-trivial: any attack, expired position or transit alteration; distinct by descriptor.")
 	ev.Rapid(r, "attacks", ev.N{Quick: 5000, Thorough: 150000}, genCase, evalCase)
 	r.SetRule("granted-ttl", "exhaustive over 14 configurations: the rendezvous policy (AcceptVoucher) grants 1 s although the owner asked for 3600 s; TO1 immediately succeeds, TO1 after 2.2 s of real time must fail (expiry follows the granted, not the requested, lifetime)")
 	ev.Enum(r, "granted-ttl", true, func(yield func(caseDesc) bool) {
@@ -599,6 +625,92 @@ func TestC07(t *testing.T) {
 		_ = errNow // (may legitimately fail if the second boundary was crossed)
 		res := ev.OK("granted-ttl")
 		res.ID = d.Cfg.Key + d.Cfg.Enc
+		return res
+	})
+	r.SetRule("re-registration", "on the real SQLite backend: histories of 2..3 TO0 registrations of one GUID with requested lifetimes from {1 s, 3600 s} (all orders), then TO1 by the genuine device: if the LAST registration was granted 1 s, TO1 after 2.2 s of real time must fail (a shorter re-registration shortens the lifetime); if it was granted 3600 s, TO1 must succeed even after an earlier 1 s registration has run out; the stored expiry column must equal now + last lifetime (±3 s). Exhaustive over the 12 histories × 3 configurations.")
+	type rereg struct {
+		Cfg  deploy.Config `json:"config"`
+		TTLs []uint32      `json:"ttls"`
+	}
+	ev.Enum(r, "re-registration", true, func(yield func(rereg) bool) {
+		i := 0
+		cs := configs()
+		for _, c := range []deploy.Config{cs[0], cs[len(cs)/2], cs[len(cs)-1]} {
+			for n := 2; n <= 3; n++ {
+				for mask := 0; mask < 1<<n; mask++ {
+					var ttls []uint32
+					for k := 0; k < n; k++ {
+						if mask>>k&1 == 1 {
+							ttls = append(ttls, 3600)
+						} else {
+							ttls = append(ttls, 1)
+						}
+					}
+					i++
+					if !r.Mine(i) {
+						continue
+					}
+					if !yield(rereg{Cfg: c, TTLs: ttls}) {
+						return
+					}
+				}
+			}
+		}
+	}, func(d rereg) ev.Result {
+		ctx, cancel := context.WithTimeout(context.Background(), 60*time.Second)
+		defer cancel()
+		scratch := deploy.ScratchDir()
+		defer os.RemoveAll(scratch)
+		mfg, owner := deploy.NewMemService("mfg", deploy.KeyMfg), deploy.NewMemService("owner", deploy.KeyOwner1)
+		rv, db, err := deploy.NewSQLiteService("rv", filepath.Join(scratch, "rv.db"), deploy.KeyStranger, true)
+		if err != nil {
+			return ev.Failf("setup", "sqlite: %v", err)
+		}
+		defer db.Close()
+		dv := deploy.NewDevice(d.Cfg, deploy.KeyDevice)
+		if err := dv.DI(ctx, deploy.NewLink(mfg)); err != nil {
+			return ev.Failf("setup", "%v", err)
+		}
+		if _, err := deploy.TransferVoucher(ctx, d.Cfg, mfg, deploy.KeyMfg, owner, deploy.KeyOwner1, dv.Cred.GUID); err != nil {
+			return ev.Failf("setup", "%v", err)
+		}
+		tag := fmt.Sprintf("%s/%s lifetimes=%v", d.Cfg.Key, d.Cfg.Enc, d.TTLs)
+		var lastAt time.Time
+		for k, ttl := range d.TTLs {
+			got, err := deploy.RegisterTO0(ctx, owner, deploy.NewLink(rv), dv.Cred.GUID, deploy.DefaultAddrs(), ttl)
+			if err != nil || got != ttl {
+				return ev.Failf("rereg-to0", "%s: registration %d asked %d s, got %d s, err %v", tag, k, ttl, got, err)
+			}
+			lastAt = time.Now()
+		}
+		last := d.TTLs[len(d.TTLs)-1]
+		// the stored expiry follows the last registration
+		var exp int64
+		if err := db.DB().QueryRowContext(ctx, "SELECT exp FROM rv_blobs WHERE guid = ?", dv.Cred.GUID[:]).Scan(&exp); err == nil {
+			want := lastAt.Add(time.Duration(last) * time.Second).Unix()
+			if exp < want-3 || exp > want+3 {
+				return ev.Failf("rereg-stored-expiry", "%s: stored expiry is %d s from the last registration, the last granted lifetime is %d s", tag, exp-lastAt.Unix(), last)
+			}
+		}
+		if last == 1 {
+			time.Sleep(2200 * time.Millisecond)
+			if _, err := dv.TO1(ctx, deploy.NewLink(rv)); err == nil {
+				return ev.Failf("expired-blob-released", "%s: TO1 succeeded 2.2 s after the last registration, which was granted 1 s", tag)
+			}
+		} else {
+			wait := false
+			for _, t := range d.TTLs {
+				wait = wait || t == 1
+			}
+			if wait {
+				time.Sleep(2200 * time.Millisecond) // let the earlier short registration run out
+			}
+			if _, err := dv.TO1(ctx, deploy.NewLink(rv)); err != nil {
+				return ev.Failf("live-blob-refused", "%s: TO1 failed although the last registration was granted 3600 s: %v", tag, err)
+			}
+		}
+		res := ev.OK(fmt.Sprintf("rereg/last=%d", last))
+		res.ID = tag
 		return res
 	})
 	ev.CheckWitness(r, "attacks", evalCase)
